@@ -39,14 +39,71 @@ theorem jsonK_mem : ∀ {kvs : List (String × Py)}, jsonK kvs = true → ∀ kv
     · exact h.1
     · exact jsonK_mem h.2 x hm
 
-theorem nc_badType {exps d} (h : d.json = true) : (badType exps d).isCrash = false := by
+
+mutual
+/-- the same, where a *leaf* may also be any object that is not an instance of the JSON classes (tuple, bytes, a set,
+    `object()`, ...): since the repair of row 6 `bad_type` names its class instead of raising, so such data are rejected
+    like any ill-typed datum -/
+def Py.jsonX : Py → Bool
+  | .null | .bool _ | .float _ | .str _ | .other _ => true
+  | .int i => (intToFlt i).isSome
+  | .list xs => jsonXL xs
+  | .dict kvs => jsonXK kvs
+  | .dictNS _ => false
+termination_by structural d => d
+def jsonXL : List Py → Bool
+  | [] => true
+  | x :: xs => x.jsonX && jsonXL xs
+termination_by structural xs => xs
+def jsonXK : List (String × Py) → Bool
+  | [] => true
+  | (_, v) :: kvs => v.jsonX && jsonXK kvs
+termination_by structural kvs => kvs
+end
+
+theorem jsonXL_mem : ∀ {xs : List Py}, jsonXL xs = true → ∀ x ∈ xs, x.jsonX = true
+  | [], _, x, hx => by cases hx
+  | y :: ys, h, x, hx => by
+    rw [jsonXL, Bool.and_eq_true] at h
+    rcases List.mem_cons.1 hx with rfl | hm
+    · exact h.1
+    · exact jsonXL_mem h.2 x hm
+
+theorem jsonXK_mem : ∀ {kvs : List (String × Py)}, jsonXK kvs = true → ∀ kv ∈ kvs, kv.2.jsonX = true
+  | [], _, x, hx => by cases hx
+  | (k, v) :: ys, h, x, hx => by
+    rw [jsonXK, Bool.and_eq_true] at h
+    rcases List.mem_cons.1 hx with rfl | hm
+    · exact h.1
+    · exact jsonXK_mem h.2 x hm
+
+/-- JSON data are in the extended domain -/
+theorem jsonX_of_json :
+    (∀ d : Py, d.json = true → d.jsonX = true) ∧ (∀ kvs, jsonK kvs = true → jsonXK kvs = true) ∧
+    (∀ xs, jsonL xs = true → jsonXL xs = true) := by
+  apply Py.json.mutual_induct
+  · intro _; rw [Py.jsonX]
+  · intro b _; rw [Py.jsonX]
+  · intro f _; rw [Py.jsonX]
+  · intro s _; rw [Py.jsonX]
+  · intro i h; rw [Py.json] at h; rw [Py.jsonX]; exact h
+  · intro xs ih h; rw [Py.json] at h; rw [Py.jsonX]; exact ih h
+  · intro kvs ih h; rw [Py.json] at h; rw [Py.jsonX]; exact ih h
+  · intro kvs h; rw [Py.json] at h; cases h
+  · intro c h; rw [Py.json] at h; cases h
+  · intro _; rw [jsonXL]
+  · intro x xs ih1 ih2 h; rw [jsonL, Bool.and_eq_true] at h; rw [jsonXL, ih1 h.1, ih2 h.2]; rfl
+  · intro _; rw [jsonXK]
+  · intro k v kvs ih1 ih2 h; rw [jsonK, Bool.and_eq_true] at h; rw [jsonXK, ih1 h.1, ih2 h.2]; rfl
+
+theorem nc_badType {exps d} (h : d.jsonX = true) : (badType exps d).isCrash = false := by
   cases d <;> first | rfl | cases h
 
 theorem nc_constrained (rs v) : (constrained rs v).isCrash = false := by
   unfold constrained; cases rs <;> rfl
 
 /-- never anything but a value or a `ValidationError`, on JSON data -/
-def NC (m : Meth) : Prop := ∀ d, d.json = true → (run m d).isCrash = false
+def NC (m : Meth) : Prop := ∀ d, d.jsonX = true → (run m d).isCrash = false
 
 theorem collect_nocrash (f : Py → Outcome Val) : ∀ (xs : List Py) (i : Nat),
     (∀ x ∈ xs, (f x).isCrash = false) → (collect f i xs).crash = Option.none
@@ -75,12 +132,12 @@ theorem listErrors_isSome (c : Constraints) (xs : List Py) (hu : c.unique = fals
   unfold Constraints.listErrors; simp [hu]
 
 theorem nc_listLike {c : Constraints} {m : Meth} (hu : c.unique = false) (hm : NC m)
-    (mk : Py → List Val → Outcome Val) (hmk : ∀ d vs, (mk d vs).isCrash = false) (d : Py) (hd : d.json = true) :
+    (mk : Py → List Val → Outcome Val) (hmk : ∀ d vs, (mk d vs).isCrash = false) (d : Py) (hd : d.jsonX = true) :
     (onList d (fun xs => finish (c.listErrors xs) (collect (fun x => run m x) 0 xs) (mk d))).isCrash = false := by
   cases d <;> try (first | exact nc_badType hd | cases hd)
   case list xs =>
-    rw [Py.json] at hd
-    exact nc_finish (collect_nocrash _ xs 0 (fun x hx => hm x (jsonL_mem hd x hx))) (listErrors_isSome c xs hu) (hmk _)
+    rw [Py.jsonX] at hd
+    exact nc_finish (collect_nocrash _ xs 0 (fun x hx => hm x (jsonXL_mem hd x hx))) (listErrors_isSome c xs hu) (hmk _)
 
 theorem nc_listSel {o : DOpts} {c : Constraints} {m : Meth} (hu : c.unique = false) (hm : NC m) : NC (listSel o c m) := by
   intro d hd
@@ -95,11 +152,11 @@ theorem nc_mapVal_tuple {r : Outcome Val} (h : r.isCrash = false) : (mapVal r li
   | crash c => cases h
 
 theorem runTuple_nocrash : ∀ (ms : List Meth) (xs : List Py) (i : Nat),
-    (∀ m ∈ ms, NC m) → jsonL xs = true → (runTuple ms i xs).crash = Option.none
+    (∀ m ∈ ms, NC m) → jsonXL xs = true → (runTuple ms i xs).crash = Option.none
   | [], xs, i, _, _ => by cases xs <;> simp [runTuple]
   | m :: ms, [], i, _, _ => by simp [runTuple]
   | m :: ms, x :: xs, i, h, hx => by
-    rw [jsonL, Bool.and_eq_true] at hx
+    rw [jsonXL, Bool.and_eq_true] at hx
     rw [runTuple]
     have ih := runTuple_nocrash ms xs (i+1) (fun m' hm' => h m' (List.mem_cons_of_mem _ hm')) hx.2
     have hm := h m (List.mem_cons_self ..) x hx.1
@@ -132,24 +189,24 @@ theorem nc_mappingSel {o : DOpts} {c : Constraints} {km vm : Meth} (hk : NC km) 
     intro kf v
     cases d <;> try (first | exact nc_badType hd | cases hd)
     case dict kvs =>
-      rw [Py.json] at hd
-      exact nc_finishMap (collectItems_nocrash kf _ _ kvs (fun kv hkv => ⟨hk _ rfl, hv _ (jsonK_mem hd kv hkv)⟩))
+      rw [Py.jsonX] at hd
+      exact nc_finishMap (collectItems_nocrash kf _ _ kvs (fun kv hkv => ⟨hk _ rfl, hv _ (jsonXK_mem hd kv hkv)⟩))
   unfold mappingSel; split
   · rw [run]; exact key true (fun _ => asVal d)
   · rw [run]; exact key false _
 
-theorem lookupKey_json {kvs : List (String × Py)} {k : String} {x : Py} (hj : jsonK kvs = true)
-    (h : lookupKey kvs k = some x) : x.json = true := by
+theorem lookupKey_json {kvs : List (String × Py)} {k : String} {x : Py} (hj : jsonXK kvs = true)
+    (h : lookupKey kvs k = some x) : x.jsonX = true := by
   unfold lookupKey at h
   cases hf : kvs.find? (fun kv => kv.1 == k) with
   | none => rw [hf] at h; cases h
   | some kv =>
     rw [hf] at h
-    have := jsonK_mem hj kv (List.mem_of_find?_eq_some hf)
+    have := jsonXK_mem hj kv (List.mem_of_find?_eq_some hf)
     simp at h; rw [← h]; exact this
 
 theorem runFields_nocrash (u : Bool) : ∀ (fs : List (FieldInfo × Meth)) (kvs : List (String × Py)),
-    (∀ p ∈ fs, NC p.2) → jsonK kvs = true → (runFields u fs kvs).crash = Option.none
+    (∀ p ∈ fs, NC p.2) → jsonXK kvs = true → (runFields u fs kvs).crash = Option.none
   | [], _, _, _ => by rw [runFields]
   | (f, m) :: fs, kvs, h, hj => by
     have ih := runFields_nocrash u fs kvs (fun p hp => h p (List.mem_cons_of_mem _ hp)) hj
@@ -173,14 +230,14 @@ theorem nc_objSel {o : DOpts} {ci : ClassInfo} {c : Constraints} {fs : List (Fie
   · rw [run]
     cases d <;> try (first | exact nc_badType hd | cases hd)
     case dict kvs =>
-      rw [Py.json] at hd
+      rw [Py.jsonX] at hd
       simp only [onDict]; unfold finishSimple
       rw [runFields_nocrash false fs kvs h hd]
       simp only; (repeat' split) <;> rfl
   · rw [run]
     cases d <;> try (first | exact nc_badType hd | cases hd)
     case dict kvs =>
-      rw [Py.json] at hd
+      rw [Py.jsonX] at hd
       simp only [onDict]; unfold finishObj
       rw [runFields_nocrash true fs kvs h hd]
       simp only; (repeat' split) <;> rfl
@@ -236,21 +293,21 @@ def nouqF : List (FieldInfo × Ty) → Bool
 termination_by structural fs => fs
 end
 
-theorem nc_prim_int (c : Constraints) : ∀ d, d.json = true → (runInt c d).isCrash = false := by
+theorem nc_prim_int (c : Constraints) : ∀ d, d.jsonX = true → (runInt c d).isCrash = false := by
   intro d hd; cases d <;> first | exact nc_constrained _ _ | exact nc_badType hd | cases hd
-theorem nc_prim_str (c : Constraints) : ∀ d, d.json = true → (runStr c d).isCrash = false := by
+theorem nc_prim_str (c : Constraints) : ∀ d, d.jsonX = true → (runStr c d).isCrash = false := by
   intro d hd; cases d <;> first | exact nc_constrained _ _ | exact nc_badType hd | cases hd
-theorem nc_prim_float (c : Constraints) : ∀ d, d.json = true → (runFloat false c d).isCrash = false := by
+theorem nc_prim_float (c : Constraints) : ∀ d, d.jsonX = true → (runFloat false c d).isCrash = false := by
   intro d hd
   cases d <;> try (first | exact nc_constrained _ _ | exact nc_badType hd | cases hd)
   case int i =>
-    rw [Py.json] at hd
+    rw [Py.jsonX] at hd
     show (intAsFloat c i).isCrash = false
     unfold intAsFloat
     cases hi : intToFlt i with
     | none => rw [hi] at hd; cases hd
     | some f => exact nc_constrained _ _
-theorem nc_any (c : Constraints) (hu : c.unique = false) : ∀ d, d.json = true → (runAny c d).isCrash = false := by
+theorem nc_any (c : Constraints) (hu : c.unique = false) : ∀ d, d.jsonX = true → (runAny c d).isCrash = false := by
   intro d hd
   cases d <;> try (first | exact nc_constrained _ _ | rfl | cases hd)
   case list xs =>
@@ -290,7 +347,7 @@ theorem no_crash (o : DOpts) (ho : OptsOk o) :
     rw [compile, hq2]; intro d hd; rw [run]
     cases d <;> try (first | exact nc_badType hd | cases hd)
     case list xs =>
-      rw [Py.json] at hd
+      rw [Py.jsonX] at hd
       simp only [onList]; unfold tupleBody
       split
       · rfl
@@ -337,10 +394,19 @@ theorem no_crash (o : DOpts) (ho : OptsOk o) :
 
 /-- entry point -/
 theorem C03_no_crash (o : DOpts) (ho : OptsOk o) (t : Ty) (ha : t.acc = true) (hn : t.nouq = true)
-    (d : Py) (hd : d.json = true) : (deserialize o {} t d).isCrash = false := by
+    (d : Py) (hd : d.jsonX = true) : (deserialize o {} t d).isCrash = false := by
   unfold deserialize
   simp only [(compile_noFail o).1 {} t ha]
   exact (no_crash o ho).1 {} t ha hn rfl d hd
+
+/-- in particular on JSON data -/
+theorem C03_no_crash_json (o : DOpts) (ho : OptsOk o) (t : Ty) (ha : t.acc = true) (hn : t.nouq = true)
+    (d : Py) (hd : d.json = true) : (deserialize o {} t d).isCrash = false :=
+  C03_no_crash o ho t ha hn d (jsonX_of_json.1 d hd)
+
+/-- non-vacuity of the extended domain: a tuple inside a list where integers are expected is rejected, not a crash -/
+example : (Py.list [.int 1, .other "tuple"]).jsonX = true ∧
+    (deserialize { quirks := Quirks.repaired } {} (.list .int) (.list [.int 1, .other "tuple"])).isCrash = false := by decide +kernel
 
 /-- outside the hypotheses the tree still crashes (rows 8 of DESIGN section 6, recorded as known findings KF08a / KF08b):
     an integer beyond the doubles where `float` is expected, unhashable elements where a set is built.
